@@ -188,6 +188,32 @@ def run_scenario(sc):
             for it in items:
                 if it.get("sleep"):
                     await asyncio.sleep(it["sleep"])
+                if "send_batch" in it:
+                    # explicit batch API with a user-held builder (left open), optionally appended
+                    # to again a few event-loop iterations after send_batch() returned
+                    b = p.create_batch()
+                    for rid in it["send_batch"]:
+                        b.append(key=b"k%d" % rid, value=b"r%d|" % rid, timestamp=None)
+                    tp0 = it["p"]
+                    try:
+                        bfut = await p.send_batch(b, "t", partition=tp0)
+                    except Exception as e:  # noqa: BLE001
+                        for rid in it["send_batch"]:
+                            sends.append((rid, ti, tp0, None, "EXC:" + type(e).__name__, None, None, []))
+                        continue
+                    for k, rid in enumerate(it["send_batch"]):
+                        net.ev("c_accept", tp=["t", tp0], rid=rid, newb=k == 0, bid=-1)
+                        sends.append((rid, ti, tp0, None, bfut, b"k%d" % rid, b"r%d|" % rid, [], k))
+                    for _ in range(it.get("yields", 0)):
+                        await asyncio.sleep(0)
+                    if it.get("late") is not None:
+                        md = b.append(key=b"k%d" % it["late"], value=b"r%d|" % it["late"], timestamp=None)
+                        net.ev("late_append", rid=it["late"], accepted=md is not None)
+                        if md is not None:
+                            net.ev("c_accept", tp=["t", tp0], rid=it["late"], newb=False, bid=-1)
+                            sends.append((it["late"], ti, tp0, None, bfut, None, None, [], len(it["send_batch"])))
+                    await maybe_ctl()
+                    continue
                 rid = it["rid"]
                 val = b"r%d|" % rid + b"x" * it.get("size", 0)
                 key = (b"k%d" % rid) if it.get("key", True) else None
@@ -249,8 +275,11 @@ def run_scenario(sc):
         except Exception as e:  # noqa: BLE001
             out["after_stop_send"] = type(e).__name__
         res = []
-        for (rid, ti, part, ts, fut, key, val, hdrs) in sends:
+        for ent in sends:
+            (rid, ti, part, ts, fut, key, val, hdrs) = ent[:8]
             r = {"rid": rid, "task": ti, "p": part, "ts": ts}
+            if len(ent) > 8:
+                r["batch_index"] = ent[8]      # send_batch(): the future is the batch's (names its first record)
             if isinstance(fut, str):
                 r["send_exc"] = fut[4:]
             elif not fut.done():
